@@ -48,7 +48,10 @@ RULE = ('pairs of continuous objects of equal parametric dimension 1-3: orders 2
         'one object inside the tolerance window of one knot of the other), surfaces and volumes periodic in each '
         'direction (the last included) against partners of lower periodicity so that lower_periodic runs 1-3 levels there '
         '(square / non-square nets in the other directions, rational or not, every direction spelling), and the known defect classes of the called '
-        'methods (periodic bases with n < p+k functions, order-1 directions, 1-D curves).  '
+        'methods (periodic bases with n < p+k functions, order-1 directions, 1-D curves); surfaces and volumes whose directions '
+        'were all built from ONE BSplineBasis instance (Surface(b, b, cps, raw=True) / Volume(b, b, b, ...), also through '
+        'clone() and a scaling, as volume_factory.sphere(type=\'square\') does) against a partner with interior knots '
+        'they lack, direction None and each single direction - the correspondence runs through the alias-free spec.  '
         'non-trivial = the call is legal (valid direction).')
 REQUIRED_TAGS = ['kind=identical', 'kind=compatible', 'pardim=1', 'pardim=2', 'pardim=3', 'dir=None', 'dir=int', 'dir=str',
                  'dir=invalid', 'orders-differ', 'orders-equal', 'periodicity-differs', 'both-periodic', 'open-only',
@@ -59,7 +62,11 @@ REQUIRED_TAGS = ['kind=identical', 'kind=compatible', 'pardim=1', 'pardim=2', 'p
                  'levels=1', 'levels=2', 'levels=3', 'pardim=2:lowering:dir0', 'pardim=2:lowering:dir1',
                  'pardim=3:lowering:dir0', 'pardim=3:lowering:dir1', 'pardim=3:lowering:dir2',
                  'volume-w-lowering:odd:square', 'volume-w-lowering:odd:nonsquare', 'volume-w-lowering:even:square',
-                 'lowering:other-net-square', 'lowering:other-net-nonsquare', 'lowering:rational']
+                 'lowering:other-net-square', 'lowering:other-net-nonsquare', 'lowering:rational',
+                 # one BSplineBasis instance used for all directions of a partner (raw=True construction path)
+                 'shared-instance', 'shared:pardim=2', 'shared:pardim=3', 'shared:dir=None', 'shared:dir=0', 'shared:dir=1',
+                 'shared:dir=2', 'shared:via=raw', 'shared:via=clone', 'shared:via=affine', 'shared:obj=1', 'shared:obj=2',
+                 'shared:rational', 'shared:orders-differ', 'shared:orders-equal']
 ASSUMPTIONS = ['np.linalg.inv / scipy spsolve inside raise_order are modelled by exact inverses (certificate-checked in the '
                'model); their rounding error is bounded by RTOL times the measured condition number of the collocation matrix',
                'BSplineBasis.reparam divides in floating point: knots are compared to 1e-12, and knots of the two objects that '
@@ -314,6 +321,40 @@ def _defect_specs(rng, quick):
     return out
 
 
+def _shared_specs(rng, quick):
+    """One partner has ALL its directions built from ONE BSplineBasis instance (flag `shared` = which object,
+    `shared_via` = how: Surface(b, b, cps, raw=True) directly, its clone(), or a scaled copy `2*obj*0.5`
+    as in `r*ball + center` of volume_factory.sphere); the other partner has interior knots the first lacks
+    in every direction, so a knot is inserted into the shared-instance object whichever direction is
+    requested.  The spec lists the basis once per direction (alias-free): model and oracle read that."""
+    out = []
+    vias = ['raw', 'clone', 'affine']
+    i = 0
+    for rep in range(1 if quick else 4):
+        for pd in (2, 3):
+            for direction in [None] + list(range(pd)):
+                for which in ('o1', 'o2'):
+                    for eq in (True, False):
+                        p = rng.choice([2, 3]) if pd == 3 else rng.choice([2, 3, 4])
+                        own = [] if rng.random() < 0.5 else [(0.5, 1)]
+                        b = _basis(p, -1, own, rng=rng, mode=rng.choice(['unit', 'dyadic']))
+                        pb = []
+                        for d in range(pd):
+                            q = p if eq else rng.choice([x for x in ((2, 3) if pd == 3 else (2, 3, 4)) if x != p])
+                            extra = sorted(rng.sample([u for u in POOL if u != 0.5], rng.randint(1, 2)))
+                            pb.append(_basis(q, -1, [(u, 1) for u in extra], rng=rng, mode=rng.choice(['unit', 'dyadic'])))
+                        rational = (i % 2 == 0)
+                        sh = _obj(rng, [dict(b, knots=list(b['knots'])) for _ in range(pd)],
+                                  3 if pd == 3 else rng.choice([2, 3]), rational)
+                        other = _obj(rng, pb, 3 if pd == 3 else rng.choice([2, 3]), rng.random() < 0.3)
+                        dd = direction if (direction is None or i % 2) else SPELL[direction][1 + (i // 2) % 2]
+                        spec = {'kind': 'identical', 'direction': dd, 'shared': which, 'shared_via': vias[i % 3]}
+                        spec['o1'], spec['o2'] = (sh, other) if which == 'o1' else (other, sh)
+                        out.append(spec)
+                        i += 1
+    return out
+
+
 def generate(rng, tier):
     quick = tier == 'quick'
     specs = []
@@ -349,6 +390,7 @@ def generate(rng, tier):
     specs += _rounded_periodic_specs(rng, quick)
     specs += _near_knot_specs(rng, quick)
     specs += _defect_specs(rng, quick)
+    specs += _shared_specs(rng, quick)
     return specs
 
 
@@ -436,9 +478,30 @@ def _obs(obj):
             list(cps.shape), cps.reshape(-1).tolist(), bool(obj.rational), int(obj.dimension)]
 
 
+def _mk(sp, s, which):
+    """The real object of spec `which`; for the shared-instance family ONE BSplineBasis instance is handed
+    to the raw=True constructor for every direction (what volume_factory.sphere(type='square') does), and
+    the object is optionally passed through clone() or an exact scaling there and back, which must keep
+    it a correct object of the same spec."""
+    o = s[which]
+    if s.get('shared') != which:
+        return gen.mk_object(sp, o)
+    assert all(b == o['bases'][0] for b in o['bases'])
+    one = gen.mk_basis(sp, o['bases'][0])
+    cps = np.array(o['cps'], dtype=float)
+    cls = {1: sp.Curve, 2: sp.Surface, 3: sp.Volume}[len(o['bases'])]
+    obj = cls(*([one] * len(o['bases'])), cps, o['rational'], raw=True)
+    via = s.get('shared_via', 'raw')
+    if via == 'clone':
+        obj = obj.clone()
+    elif via == 'affine':
+        obj = (2.0 * obj) * 0.5       # exact in doubles
+    return obj
+
+
 def _call(sp, s):
-    a = gen.mk_object(sp, s['o1'])
-    b = gen.mk_object(sp, s['o2'])
+    a = _mk(sp, s, 'o1')
+    b = _mk(sp, s, 'o2')
     if s['kind'] == 'compatible':
         sp.SplineObject.make_splines_compatible(a, b)
     elif s['direction'] is None:
@@ -788,6 +851,17 @@ def tags(s, res):
     out.append('pardim=%d' % pd)
     if s.get('defect'):
         out += ['defect-stream', 'defect=' + s['defect']]
+    if s.get('shared'):
+        sh = s[s['shared']]
+        rq = _requested(s.get('direction'), pd)
+        out += ['shared-instance', 'shared:pardim=%d' % pd, 'shared:via=' + s.get('shared_via', 'raw'),
+                'shared:obj=' + s['shared'][1:]]
+        out.append('shared:dir=None' if s.get('direction') is None else 'shared:dir=%d' % rq[0] if rq else 'shared:dir=invalid')
+        if sh['rational']:
+            out.append('shared:rational')
+        oth = s['o2' if s['shared'] == 'o1' else 'o1']
+        out.append('shared:orders-differ' if any(x['order'] != y['order'] for x, y in zip(sh['bases'], oth['bases']))
+                   else 'shared:orders-equal')
     if _inexact_periodic(s):
         out.append('rounded-periodic-input')
     if s['kind'] == 'identical' and _near_knots(s):
